@@ -111,6 +111,7 @@ mutant("m09n", "C09", J, "         !Support::bit_vector_get_bit(block->_stop_bit
 mutant("m14o", "C14", "asmjit/arm/a64assembler.cpp", "        if (lsb >= op_size || width == 0 || width > op_size - lsb)\n          goto InvalidImmediate;\n\n        uint32_t lsb32 = Support::neg(uint32_t(lsb)) & (op_size - 1);", "        if (lsb >= op_size || width == 0 || width > op_size)\n          goto InvalidImmediate;\n\n        uint32_t lsb32 = Support::neg(uint32_t(lsb)) & (op_size - 1);", "revert fix: bfc accepts lsb + width beyond the register")
 mutant("m14p", "C14", "asmjit/arm/a64assembler.cpp", "        if (shift_type == uint32_t(ShiftOp::kROR) && inst_id != Inst::kIdMvn)\n          goto InvalidImmediate;\n", "", "revert fix: neg/negs accept ror")
 mutant("m14q", "C14", "asmjit/core/assembler.cpp", "    if (ASMJIT_UNLIKELY(delta < -(limit >> 1) || delta >= limit)) {", "    if (ASMJIT_UNLIKELY(delta < -(limit >> 1) - limit || delta >= 2 * limit)) {", "embed_label_delta accepts distances up to twice the field range (truncated)")
+mutant("m16j", "C16", "asmjit/core/builder.cpp", "  dst->reset_inline_comment();\n\n  return err;", "  return err;", "revert fix: serialize_to() leaves the last node's inline comment on the destination")
 
 def run(cmd, env=None, timeout=3600):
     e = dict(os.environ); e.update(env or {})
